@@ -1,0 +1,61 @@
+//go:build verif
+
+package pubsub
+
+import (
+	pb "github.com/libp2p/go-libp2p-pubsub/pb"
+	"github.com/libp2p/go-libp2p/core/peer"
+)
+
+// Verification hooks (build tag verif): they let an external harness own the
+// random selections of the router and hold stream goroutines at named points.
+// With the tag off every hook is a constant no-op (verif_hooks_off.go).
+var verifHooks struct {
+	shufflePeers    func([]peer.ID) bool
+	shufflePeerInfo func([]*pb.PeerInfo) bool
+	shuffleStrings  func([]string) bool
+	pick            func(idx, n int) int
+	coin            func(threshold float64) (accept bool, ok bool)
+	yield           func(point string, p peer.ID)
+}
+
+func verifShufflePeers(l []peer.ID) bool {
+	if f := verifHooks.shufflePeers; f != nil {
+		return f(l)
+	}
+	return false
+}
+
+func verifShufflePeerInfo(l []*pb.PeerInfo) bool {
+	if f := verifHooks.shufflePeerInfo; f != nil {
+		return f(l)
+	}
+	return false
+}
+
+func verifShuffleStrings(l []string) bool {
+	if f := verifHooks.shuffleStrings; f != nil {
+		return f(l)
+	}
+	return false
+}
+
+func verifPick(idx, n int) int {
+	if f := verifHooks.pick; f != nil {
+		return f(idx, n)
+	}
+	return idx
+}
+
+func verifCoin(threshold float64) (bool, bool) {
+	if f := verifHooks.coin; f != nil {
+		return f(threshold)
+	}
+	return false, false
+}
+
+func verifYield(point string, p peer.ID) {
+	if f := verifHooks.yield; f != nil {
+		f(point, p)
+	}
+}
